@@ -74,7 +74,11 @@ static std::string dumpModel(Model &m) {
   o << " | jq ";
   for (size_t i = 0; i < m.mJoints.size(); i++) { if (i) o << ' '; o << m.mJoints[i].q_index; }
   o << " | jc ";
-  for (size_t i = 0; i < m.mJoints.size(); i++) { if (i) o << ' '; o << m.mJoints[i].custom_joint_index; }
+  for (size_t i = 0; i < m.mJoints.size(); i++) {
+    if (i) o << ' ';
+    // only meaningful for custom joints (several Joint constructors leave it uninitialised)
+    if (m.mJoints[i].mJointType == JointTypeCustom) o << m.mJoints[i].custom_joint_index; else o << '-';
+  }
   o << " | w3 " << joinU(m.multdof3_w_index);
   o << " | ncustom " << m.mCustomJoints.size();
   o << " | virt ";
@@ -243,6 +247,15 @@ static void doCall(State &s, Toks &t) {
   } else if (name == "PE") {
     unsigned u = t.nat();
     o.num(Utils::CalcPotentialEnergy(m, s.q, u != 0));
+  } else if (name == "LTL") {
+    // H by CRBA, factorised in place, then H x = tau solved with the two triangular solves
+    MatrixNd H = MatrixNd::Zero(m.dof_count, m.dof_count);
+    CompositeRigidBodyAlgorithm(m, s.q, H, true);
+    SparseFactorizeLTL(m, H);
+    VectorNd x = s.tau;
+    SparseSolveLTx(m, H, x);
+    SparseSolveLx(m, H, x);
+    o.mat(H); o.vec(x);
   } else if (name == "FDL") {
     unsigned solver = t.nat();
     VectorNd qdd = VectorNd::Zero(m.dof_count);
